@@ -183,9 +183,10 @@ def run(tier):
     pp = dict(ms=[2], smax=2, pairs=[(0, 0), (0, 2), (1, 1), (2, 2), (1, 2), (2, 1), (3, 2)])
     timeout = 300
   else:
-    p = dict(ms=[0, 1, 2, 3, 4], smax={0: 0, 1: 8, 2: 5, 3: 4, 4: 2}, bmax=5, kinds=['list', 'tuple'], ncols=[1, 2, 3], pads=[None, -1], alias=True)
+    # sized on the unchanged tree: aliasing variants with 3+ input batches (sizes <= 4, target <= 5) needed > 2800 CPU s each and did not finish
+    p = dict(ms=[0, 1, 2, 3, 4], smax={0: 0, 1: 8, 2: 5, 3: 3, 4: 2}, bmax=4, kinds=['list', 'tuple'], ncols=[1, 2, 3], pads=[None, -1], alias=True, alias_max_m=2)
     pp = dict(ms=[1, 2, 3], smax=4, pairs=[(0, 0), (0, 1), (0, 2), (0, 3), (1, 1), (2, 2), (1, 2), (2, 1), (3, 2), (2, 3), (4, 3)])
-    timeout = 900
+    timeout = 1800
   rep.bounds(rebatched_args=p, pipeline=pp, per_condition_timeout_s=timeout,
              note='ms = numbers of input batches; each batch size 0..smax, target 1..bmax (0 = pass-through); '
                   'alias: a batch may be the same object as its predecessor')
